@@ -220,7 +220,7 @@ def stepCaller (s : State) (t : Nat) (c : Nat) (e : Ev) : Option State :=
   let k := s.callers c
   match k.pc, e with
   | .idle, .call _ kind reqs =>
-    let k' : Caller := { pc := .idle, kind := kind, todo := reqs }
+    let k' : Caller := { pc := .idle, kind := kind, todo := reqs, held := k.held }
     if kind ≠ .multi ∧ 1 < reqs.length then none else      -- communicate / writeline: one request
     some (s.setC c (match kind with
       | .multi => { k' with pc := .acqO }
@@ -253,13 +253,16 @@ def stepCaller (s : State) (t : Nat) (c : Nat) (e : Ev) : Option State :=
            | _ :: _ => { k with pc := .cbs s.cbsReg })
         else afterConnected k))
     else none
-  | .cbs (n :: rest), .cb _ n' keep =>
-    if n' = n then
-      let s' := if keep then s else { s with cbsReg := removeCb n s.cbsReg }
-      some (s'.setC c (match rest with
-        | [] => afterConnected k
-        | _ :: _ => { k with pc := .cbs rest }))
-    else none
+  | .cbs l, .cb _ n' keep =>
+    match l with
+    | [] => none
+    | n :: rest =>
+      if n' = n then
+        let s' := if keep then s else { s with cbsReg := removeCb n s.cbsReg }
+        some (s'.setC c (match rest with
+          | [] => afterConnected k
+          | _ :: _ => { k with pc := .cbs rest }))
+      else none
   | .acqI, .acq _ => doAcqI s c k
   | .acqI, .isconn _ v => staleUpdate s c k v
   | .done, .isconn _ v => staleUpdate s c k v
@@ -267,12 +270,14 @@ def stepCaller (s : State) (t : Nat) (c : Nat) (e : Ev) : Option State :=
     if d = s.cfg.waitBefore then some (s.setC c { k with pc := .wakeWB, wakeAt := t + d }) else none
   | .wakeWB, .wake _ => if k.wakeAt ≤ t then some (s.setC c (toFlush s k)) else none
   | .flush, .flush _ => some (s.setC c { k with pc := .drain })
-  | .drain, .recv _ (.data d) =>
-    match s.chan with
-    | d' :: rest => if d = d' then some { s with chan := rest } else none
-    | [] => none
-  | .drain, .recv _ .closed =>
-    if s.chan = [] ∧ s.eof = true then some (s.setC c { k with pc := .closing }) else none
+  | .drain, .recv _ out =>
+    match out with
+    | .data d =>
+      (match s.chan with
+       | d' :: rest => if d = d' then some { s with chan := rest } else none
+       | [] => none)
+    | .closed => if s.chan = [] ∧ s.eof = true then some (s.setC c { k with pc := .closing }) else none
+    | .empty => none
   | .drain, .send _ conn n data =>
     if s.chan = [] ∧ s.eof = false ∧ s.conn = some conn ∧ n = s.nsend ∧ data = (current k).cmd then
       let s' := { s with rxbuf := [], nsend := s.nsend + 1 }
@@ -282,23 +287,24 @@ def stepCaller (s : State) (t : Nat) (c : Nat) (e : Ev) : Option State :=
         | none => some (s'.setC c { k with pc := .read, endT := t + s.cfg.timeout, lastT := t, emptyAt := none })
       else some (s'.setC c { k with pc := .relI })
     else none
-  | .read, .recv _ (.data d) =>
-    match s.chan with
-    | d' :: rest =>
-      if d = d' then
-        let buf := s.rxbuf ++ d
-        match complete s.cfg (current k) buf with
-        | some (l, r) => some ({ s with chan := rest, rxbuf := r }.setC c { k with pc := .relI, replies := k.replies ++ [l] })
-        | none => some ({ s with chan := rest, rxbuf := buf }.setC c { k with lastT := t, emptyAt := none })
+  | .read, .recv _ out =>
+    match out with
+    | .data d =>
+      (match s.chan with
+       | d' :: rest =>
+         if d = d' then
+           let buf := s.rxbuf ++ d
+           match complete s.cfg (current k) buf with
+           | some (l, r) => some ({ s with chan := rest, rxbuf := r }.setC c { k with pc := .relI, replies := k.replies ++ [l] })
+           | none => some ({ s with chan := rest, rxbuf := buf }.setC c { k with lastT := t, emptyAt := none })
+         else none
+       | [] => none)
+    | .empty =>
+      if s.chan = [] ∧ s.eof = false ∧ t ≤ k.lastT + s.cfg.gran + s.cfg.slack
+         ∧ mayRetry k s.cfg.slack = true then
+        some (s.setC c { k with lastT := t, emptyAt := some t })
       else none
-    | [] => none
-  | .read, .recv _ .empty =>
-    if s.chan = [] ∧ s.eof = false ∧ t ≤ k.lastT + s.cfg.gran + s.cfg.slack
-       ∧ mayRetry k s.cfg.slack = true then
-      some (s.setC c { k with lastT := t, emptyAt := some t })
-    else none
-  | .read, .recv _ .closed =>
-    if s.chan = [] ∧ s.eof = true then some (s.setC c { k with pc := .closing }) else none
+    | .closed => if s.chan = [] ∧ s.eof = true then some (s.setC c { k with pc := .closing }) else none
   | .read, .rel _ =>       -- TimeoutError leaves the inner `with`
     match k.emptyAt with
     | some te =>
